@@ -331,6 +331,61 @@ int main(int argc, char** argv) {
 			all_engines(P, (pi & 1) != 0, 1 + (pi % 2), rng.below(4), true, "oracle");
 		}
 	}
+	else if (part == "codelen") { // length of the x86 code of EVERY instruction word class (opcode x dst x src x mod bytes, immediate classes), and the fixed part per flag set
+		JitCompilerX86 jit; jit.enableAll();
+		const size_t codeSize = jit.getCodeSize();
+		// where the SuperscalarHash area starts is observed as in the codegen part
+		SuperscalarProgramList programs; std::vector<uint64_t> rcache; { std::vector<uint8_t> key = rng.bytes(32); Blake2Generator gen(key.data(), key.size());
+			for (int i = 0; i < RANDOMX_CACHE_ACCESSES; ++i) { generateSuperscalar(programs[i], gen); for (unsigned j = 0; j < programs[i].getSize(); ++j) { auto& in = programs[i](j); if ((SuperscalarInstructionType)in.opcode == SuperscalarInstructionType::IMUL_RCP) { auto rcp = randomx_reciprocal(in.getImm32()); in.setImm32((uint32_t)rcache.size()); rcache.push_back(rcp); } } } }
+		std::vector<uint8_t> before(jit.getCode(), jit.getCode() + codeSize);
+		jit.generateSuperscalarHash(programs, rcache);
+		size_t sshOff = codeSize; for (size_t k = 0; k < codeSize; ++k) if (before[k] != jit.getCode()[k]) { sshOff = k; break; }
+		sshOff &= ~(size_t)63;
+		for (int v2 = 0; v2 < 2; ++v2) {
+			int size = v2 ? 384 : 256;
+			cs->setFlagV2(); if (!v2) cs->clearFlagV2();
+			jit.setFlags((randomx_flags)(RANDOMX_FLAG_JIT | RANDOMX_FLAG_FULL_MEM | (v2 ? RANDOMX_FLAG_V2 : 0)));
+			int maxlen[256], minlen[256]; for (int k = 0; k < 256; ++k) { maxlen[k] = 0; minlen[k] = 1 << 20; }
+			long long combos = 0; int slot = 0;
+			struct W { uint8_t op, dst, src, mod; }; std::vector<W> inslot((size_t)size);
+			auto flush = [&](int used) {
+				for (int i = used; i < size; ++i) put(P, i, 255, 0, 0, 0, 0);         // filler after the measured words
+				memcpy(&cs->program, P.buf, sizeof P.buf); cs->initialize();
+				jit.generateProgram(cs->program, cs->config);
+				auto offs = std::begin(jit.instructionOffsets);
+				for (int i = 0; i + 1 < size && i < used; ++i) { int len = offs[i + 1] - offs[i]; uint8_t op = inslot[(size_t)i].op; if (len > maxlen[op]) maxlen[op] = len; if (len < minlen[op]) minlen[op] = len; }
+			};
+			rng.fill(P.buf, 128);
+			for (int op = 0; op < 256; ++op) for (int dst = 0; dst < 8; ++dst) for (int src = 0; src < 8; ++src) for (int mod = 0; mod < 256; ++mod) {
+				++combos;
+				for (int ic = 0; ic < 3; ++ic) {   // immediate classes: zero, a power of two, all ones / random
+					uint32_t im = ic == 0 ? 0u : (ic == 1 ? (1u << ((op + dst + mod) & 31)) : (((op ^ mod) & 1) ? 0xffffffffu : (uint32_t)rng.next()));
+					inslot[(size_t)slot] = W{ (uint8_t)op, (uint8_t)dst, (uint8_t)src, (uint8_t)mod };
+					put(P, slot, (uint8_t)op, (uint8_t)(dst | (rng.next() & 0xf8)), (uint8_t)(src | (rng.next() & 0xf8)), (uint8_t)mod, im);
+					if (++slot == size - 1) { flush(slot); slot = 0; }
+				}
+			}
+			if (slot) flush(slot);
+			std::string lens = "["; for (int k = 0; k < 256; ++k) { char b[48]; snprintf(b, sizeof b, "%s[%d,%d,%d]", k ? "," : "", k, maxlen[k], minlen[k]); lens += b; } lens += "]";
+			{ Line l; l.str("e", "codelen").boolean("v2", v2 != 0).num("combos", combos).raw("lens", lens); l.emit(out); }
+			// fixed part of every flag set: end position of a program minus the sum of its instruction lengths
+			for (int hard = 0; hard < 2; ++hard) for (int light = 0; light < 2; ++light) {
+				random_program(rng, P, 384, 0);
+				memcpy(&cs->program, P.buf, sizeof P.buf); cs->initialize();
+				jit.setFlags((randomx_flags)(RANDOMX_FLAG_JIT | (v2 ? RANDOMX_FLAG_V2 : 0) | (hard ? RANDOMX_FLAG_HARD_AES : 0) | (light ? 0 : RANDOMX_FLAG_FULL_MEM)));
+				if (light) jit.generateProgramLight(cs->program, cs->config, (uint32_t)cs->datasetOffset); else jit.generateProgram(cs->program, cs->config);
+				auto offs = std::begin(jit.instructionOffsets);
+				// the last instruction's end: generate the same program with one more... not available; measure it from a trailing NOP word instead
+				put(P, size - 1, 255, 0, 0, 0, 0);      // ISTORE/NOP range end: opcode 255 has a fixed encoding, measured above
+				memcpy(&cs->program, P.buf, sizeof P.buf); cs->initialize();
+				if (light) jit.generateProgramLight(cs->program, cs->config, (uint32_t)cs->datasetOffset); else jit.generateProgram(cs->program, cs->config);
+				offs = std::begin(jit.instructionOffsets);
+				long long sum = (offs[size - 1] - offs[0]) + maxlen[255];
+				Line l; l.str("e", "codebase").boolean("v2", v2 != 0).boolean("hard", hard != 0).boolean("light", light != 0).num("size", size)
+					.num("codePos", jit.codePos).num("base", (long long)jit.codePos - sum).num("limit", (long long)sshOff); l.emit(out);
+			}
+		}
+	}
 	else if (part == "codegen") { // code buffer layout: generated programs never reach the SuperscalarHash area, which stays intact
 		JitCompilerX86 jit; jit.enableAll();
 		SuperscalarProgramList programs; std::vector<uint64_t> rcache;
